@@ -164,3 +164,89 @@ Definition s_label : str := [108; 97; 98; 101; 108]%N.
 (* an empty string counts as "not given" (the code tests truthiness) *)
 Definition given (o : option str) : option str :=
   match o with Some [] => None | _ => o end.
+
+(* ---------------------------------------------------------------------------------------------- *)
+(* print_tree's attribute options (export.py:195-241): all_attrs, attr_list, attr_omit_null,
+   attr_bracket.  A node's scalar attributes (the keyword arguments it was created with) are stored
+   in the tree's attribute list under key 'a' ++ k, in ascending key order. *)
+
+Definition scalar_attrs (t : tree) : list (str * val) :=
+  flat_map (fun kv => match kv with
+                      | (97%N :: k, v) => [(k, v)]
+                      | _ => []
+                      end) (tattrs t).
+
+Fixpoint vlookup (k : str) (d : list (str * val)) : option val :=
+  match d with [] => None | (k', v) :: r => if str_eqb k k' then Some v else vlookup k r end.
+
+(* f"{v}" *)
+Definition str_of_Z (z : Z) : str :=
+  match z with
+  | Z0 => [48%N]
+  | Zpos p => str_of_nat (Pos.to_nat p)
+  | Zneg p => 45%N :: str_of_nat (Pos.to_nat p)
+  end.
+Definition fmt_val (v : val) : str :=
+  match v with
+  | VNone => [78; 111; 110; 101]%N
+  | VInt z => str_of_Z z
+  | VStr s => s
+  | VBool true => [84; 114; 117; 101]%N
+  | VBool false => [70; 97; 108; 115; 101]%N
+  | VFloat _ _ => []          (* not generated *)
+  end.
+
+Record printopts := PO { po_all : bool; po_list : list str; po_omit : bool; po_bracket : list str }.
+
+(* sorted(self.__dict__.items()) without `name` and without the private fields: the keyword
+   attributes, plus `val` for a BinaryNode (int(name) when the name is a decimal literal, else the
+   name; both print like the name for canonical literals, the only ones generated) *)
+Fixpoint insert_sorted (kv : str * val) (l : list (str * val)) : list (str * val) :=
+  match l with
+  | [] => [kv]
+  | x :: r => if str_ltb (fst kv) (fst x) then kv :: l else x :: insert_sorted kv r
+  end.
+Definition s_val : str := [118; 97; 108]%N.
+Definition describe (binary : bool) (t : tree) : list (str * val) :=
+  let base := fold_right insert_sorted [] (scalar_attrs t) in
+  if binary then insert_sorted (s_val, VStr (tname t)) base else base.
+
+Definition attr_item (kv : str * val) : str := fst kv ++ [61%N] ++ fmt_val (snd kv).
+
+(* lines 209-238: the text appended to the node name *)
+Definition attr_suffix (binary : bool) (o : printopts) (t : tree) : res str :=
+  if po_all o || (match po_list o with [] => false | _ => true end) then
+    match po_bracket o with
+    | [bo; bc] =>
+        let own := if binary then (s_val, VStr (tname t)) :: scalar_attrs t else scalar_attrs t in
+        let items :=
+          if po_all o then map attr_item (describe binary t)
+          else flat_map (fun a => match vlookup a own with
+                                  | Some VNone => if po_omit o then [] else [attr_item (a, VNone)]
+                                  | Some v => [attr_item (a, v)]
+                                  | None => []
+                                  end) (po_list o) in
+        match items with
+        | [] => Ret []
+        | _ => Ret (32%N :: bo ++ join [44; 32]%N items ++ bc)
+        end
+    | _ => Raise ValueError
+    end
+  else Ret [].
+
+Fixpoint res_all {A} (l : list (res A)) : res (list A) :=
+  match l with
+  | [] => Ret []
+  | Raise e :: _ => Raise e
+  | Ret x :: r => match res_all r with Ret r' => Ret (x :: r') | Raise e => Raise e end
+  end.
+
+Fixpoint zip_lines (a b : list str) : list str :=
+  match a, b with x :: a', y :: b' => (x ++ y) :: zip_lines a' b' | _, _ => [] end.
+
+(* print_tree with attribute options on an already selected tree: one line per node in pre-order *)
+Definition print_lines_opt (st : vstyle) (binary : bool) (o : printopts) (t : tree) : res (list str) :=
+  match res_all (map (attr_suffix binary o) (pre t)) with
+  | Ret sfx => Ret (zip_lines (map line_of (yield_lines st t)) sfx)
+  | Raise e => Raise e
+  end.
